@@ -78,8 +78,9 @@ type c13Seq struct {
 	strangerTx     map[util.Uint256]bool
 }
 
-func newC13Seq(t testing.TB, n int, salt int64) *c13Seq {
+func newC13Seq(t testing.TB, n int, salt int64, slow int) *c13Seq {
 	x := newC13Net(t, n, salt)
+	x.slow = slow
 	x.fund(500_0000_0000)
 	q := &c13Seq{t: t, x: x, n: n, members: map[int]*deploy.VerifNotaryMember{}, cancels: map[int]context.CancelFunc{},
 		idOf: map[util.Uint256]int{}, pooled: map[int]*transaction.Transaction{}, txHash: map[c13Data]util.Uint256{},
@@ -226,22 +227,37 @@ func (q *c13Seq) write(tx *transaction.Transaction) (term string, nonce uint32, 
 	return
 }
 
+// settle waits, after a block, until the members have digested it: nobody
+// waits any more for the outcome of a transaction that has been executed (the
+// transactionGroupMonitors reset their pending flags when their waiter
+// returns; the waiters' subscriptions are tracked by the chain adapter), and
+// every monitor has seen the new height. Event-driven; the remaining sleep
+// covers the few instructions between a waiter's return and the flag reset
+// and grows with the machine's current wake-up latency.
 func (q *c13Seq) settle() {
-	time.Sleep(12 * time.Millisecond)
-	deadline := time.Now().Add(2 * time.Second)
+	scale := time.Duration(q.x.slow)
+	deadline := time.Now().Add(30 * time.Second * scale)
 	for time.Now().Before(deadline) {
-		ok := true
+		ok := !q.x.awaitedExecuted()
 		for _, m := range q.members {
 			if m.Height() != q.x.bc.BlockHeight() {
 				ok = false
 			}
 		}
 		if ok {
+			time.Sleep((3*time.Millisecond + 4*time.Duration(q.x.latency.Load())) * scale)
 			return
 		}
-		time.Sleep(2 * time.Millisecond)
+		time.Sleep(time.Millisecond)
 	}
-	q.t.Fatalf("monitors did not catch up")
+	q.x.waitMu.Lock()
+	stuck := fmt.Sprint(len(q.x.waits), " waits:")
+	for k, w := range q.x.waits {
+		_, h, err := q.x.bc.GetTransaction(w)
+		stuck += fmt.Sprintf(" [%s tx=%s in block %d err=%v model id=%d]", k, w.StringLE()[:8], h, err, q.idOf[w])
+	}
+	q.x.waitMu.Unlock()
+	q.t.Fatalf("members did not digest block %d within %v: %s", q.x.bc.BlockHeight(), 30*time.Second*scale, stuck)
 }
 
 func (q *c13Seq) designated() bool { return q.x.notaryDesignated() }
